@@ -1073,3 +1073,9 @@ V("c15-isin-set", "C15", "fire", UT, "                if set(path) & S == set():
 MO_OLD = "            if rule_1(i, j, P) or rule_2(i, j, P) or rule_3(i, j, P) or rule_4(i, j, P):\n                # orient i -> j\n                oriented_edges = True\n"
 V("c10-orient-flag-overwritten", "C10", "fire", UT, MO_OLD, "            fwd = rule_1(i, j, P) or rule_2(i, j, P) or rule_3(i, j, P) or rule_4(i, j, P)\n            oriented_edges = fwd\n            if fwd:\n                # orient i -> j\n", rule="ORIENT.flag", what="the pass flag is overwritten per edge: an orientation made for an earlier edge is forgotten and the loop stops early", accept_inconclusive=True)
 V("c10-silent-orient-flag-or", "C10", "silent", UT, MO_OLD, "            if rule_1(i, j, P) or rule_2(i, j, P) or rule_3(i, j, P) or rule_4(i, j, P):\n                # orient i -> j\n                oriented_edges = oriented_edges or True\n", what="flag raised with `or`")
+V("c01-silent-config-attribute", "C01", "silent", LG, "        self.W = W.copy()\n        self.p = len(W)\n", "        self.W = W.copy()\n        self.p = len(W)\n        self.verbose = False\n",
+  more=[(LG, "        # Must copy as they can be changed by interventions, but we\n", "        if self.verbose:\n            print(\"sampling from\", self.p, \"variables\")\n        # Must copy as they can be changed by interventions, but we\n")],
+  what="a setting stored by the constructor and only read by sample: constant over the object's life, not history")
+V("c04-silent-config-attribute", "C04", "silent", LG, "        self.W = W.copy()\n        self.p = len(W)\n", "        self.W = W.copy()\n        self.p = len(W)\n        self.verbose = False\n",
+  more=[(LG, "        # Must copy as they can be changed by interventions, but we\n", "        if self.verbose:\n            print(\"sampling from\", self.p, \"variables\")\n        # Must copy as they can be changed by interventions, but we\n")],
+  what="a setting stored by the constructor and only read by sample")
